@@ -30,6 +30,9 @@ CONSTANTS Mods,       \* module names that may occur in descriptions
           DescCmds,   \* names of the commands every described module has (for the name maps only)
           Wires,      \* wire value ids offered in messages
           ValidW,     \* the ones the parameter's datatype imports; the rest is rejected
+          ValidWB,    \* the same for the datatypes of description variant "b" (equal names, other datatypes)
+          Variants,   \* datatype variants a description may come in: subset of {"a", "b"}
+          OtherDescs, \* descriptions ANOTHER client object of the same process may be given ({}: there is none)
           ENames,     \* error class names offered in error reports
           KnownE,     \* the ones that are SECoP error classes
           Texts,      \* error text ids
@@ -86,8 +89,14 @@ VARIABLES desc,     \* the description: set of known (module, parameter) pairs
           cbs,      \* registered callbacks
           waiting,  \* requests waiting for their reply: (reply action, identifier)
           now,      \* the client's clock (ticks)
-          last      \* observable outcome of the last operation
-vars == <<desc, cache, cbs, waiting, now, last>>
+          last,     \* observable outcome of the last operation
+          variant,  \* datatype variant of this client's description
+          other     \* description of the other client of the process: it must never matter (Isolation)
+vars == <<desc, cache, cbs, waiting, now, last, variant, other>>
+ValidOf(v) == IF v = "b" THEN ValidWB ELSE ValidW
+NoOther == [desc |-> {}, variant |-> "none"]
+(* the imported value: the wire value read with the datatype of the own description variant *)
+Imp(w, v) == IF v = "b" THEN w \o "b" ELSE w
 
 (* ---- identifier -> parameter (description handling, default accessibles) ---- *)
 Resolve(a, id, d) ==
@@ -107,7 +116,7 @@ IsValue(msg) == msg.action \in ValueActions
 Handled(msg, d) == /\ msg.action \notin ReplyOnlyActions
                    /\ Resolve(msg.action, msg.ident, d) # NoKey
                    /\ msg.shape \in {"ok", "okq"}
-                   /\ IsValue(msg) => msg.w \in ValidW
+                   /\ IsValue(msg) => msg.w \in ValidOf(variant)   \* this client's own datatypes
 
 MinT(a, b) == IF a <= b THEN a ELSE b
 TS(t, n) == IF t = NoT THEN n ELSE MinT(n, t)
@@ -116,7 +125,7 @@ ClsOf(en) == IF en \in KnownE THEN en ELSE "generic"
 AllowedErr(en, tx) == {[cls |-> ClsOf(en), text |-> tx]}
                       \cup (IF tx \in PrefTexts THEN {[cls |-> PrefClass, text |-> PrefRest]} ELSE {})
 AllowedEntries(msg, n) ==
-  IF IsValue(msg) THEN {[val |-> msg.w, ts |-> TS(msg.t, n), err |-> NoErr]}
+  IF IsValue(msg) THEN {[val |-> Imp(msg.w, variant), ts |-> TS(msg.t, n), err |-> NoErr]}
   ELSE {[val |-> "null", ts |-> TS(msg.t, n), err |-> x] : x \in AllowedErr(msg.en, msg.tx)}
 
 Matches(c, k) == /\ c.kind # "handleError"
@@ -134,6 +143,7 @@ RelAllowed(msg, d, w) ==
   ELSE BOOLEAN       \* malformed reply / reply naming a command while a request waits: not decided here
 
 Init == /\ desc \in InitDescs
+        /\ variant \in Variants /\ other = NoOther
         /\ cache = [k \in AllKeys |-> Undef]
         /\ cbs = {}
         /\ waiting = {}
@@ -155,7 +165,7 @@ Recv(msg, e, rel) ==
         /\ waiting' = IF rel THEN waiting \ {RKey(msg)} ELSE waiting
         /\ last' = [kind |-> "recv", key |-> IF h THEN k ELSE NoKey, handled |-> h,
                     calls |-> hit, view |-> e, released |-> rel]
-  /\ UNCHANGED <<desc, now>>
+  /\ UNCHANGED <<variant, other, desc, now>>
 
 Cached(c) == {k \in AllKeys : cache[k] # Undef /\ Matches(c, k)}
 ImmAllowed(c) == IF c.beh = "oneshot" /\ Cached(c) # {} THEN (SUBSET Cached(c)) \ {{}}
@@ -167,36 +177,43 @@ Register(c, S) ==
   /\ S \in ImmAllowed(c)
   /\ cbs' = IF c.beh = "oneshot" /\ S # {} THEN cbs ELSE cbs \cup {c}
   /\ last' = [kind |-> "register", cb |-> c, ikeys |-> S]
-  /\ UNCHANGED <<desc, cache, waiting, now>>
+  /\ UNCHANGED <<variant, other, desc, cache, waiting, now>>
 
 Unregister(c) ==
   /\ c \in cbs
   /\ cbs' = cbs \ {c}
   /\ last' = [kind |-> "unregister", cb |-> c]
-  /\ UNCHANGED <<desc, cache, waiting, now>>
+  /\ UNCHANGED <<variant, other, desc, cache, waiting, now>>
 
 (* a caller has sent a read / change request and waits for the reply *)
 Expect(rk) ==
   /\ rk \in ReqKeys \ waiting
   /\ waiting' = waiting \cup {rk}
   /\ last' = [kind |-> "expect", rk |-> rk]
-  /\ UNCHANGED <<desc, cache, cbs, now>>
+  /\ UNCHANGED <<variant, other, desc, cache, cbs, now>>
 
 (* nothing arrives for a while (the receive loop times out on the line and goes on) *)
 Idle == /\ last' = [kind |-> "idle"]
-        /\ UNCHANGED <<desc, cache, cbs, waiting, now>>
+        /\ UNCHANGED <<variant, other, desc, cache, cbs, waiting, now>>
 
 Tick == /\ now < MaxNow
         /\ now' = now + 1
         /\ last' = [kind |-> "tick"]
-        /\ UNCHANGED <<desc, cache, cbs, waiting>>
+        /\ UNCHANGED <<variant, other, desc, cache, cbs, waiting>>
 
 (* a new description (reconnect): identifier maps are rebuilt, the cache is kept *)
-Describe(d) ==
-  /\ d \in Descs /\ d # desc
-  /\ desc' = d
+Describe(d, v) ==
+  /\ d \in Descs /\ v \in Variants /\ <<d, v>> # <<desc, variant>>
+  /\ desc' = d /\ variant' = v
   /\ last' = [kind |-> "describe"]
-  /\ UNCHANGED <<cache, cbs, waiting, now>>
+  /\ UNCHANGED <<other, cache, cbs, waiting, now>>
+
+(* another SecopClient object of the same process gets (another) description: nothing of this client changes *)
+OtherDescribes(d, v) ==
+  /\ d \in OtherDescs /\ v \in Variants /\ [desc |-> d, variant |-> v] # other
+  /\ other' = [desc |-> d, variant |-> v]
+  /\ last' = [kind |-> "other"]
+  /\ UNCHANGED <<variant, desc, cache, cbs, waiting, now>>
 
 Next == \/ \E msg \in Msgs :
              \E e \in (IF Handled(msg, desc) THEN AllowedEntries(msg, now) ELSE {Undef}),
@@ -206,12 +223,13 @@ Next == \/ \E msg \in Msgs :
         \/ \E rk \in ReqKeys : Expect(rk)
         \/ Tick
         \/ Idle
-        \/ \E d \in Descs : Describe(d)
+        \/ \E d \in Descs, v \in Variants : Describe(d, v)
+        \/ \E d \in OtherDescs, v \in Variants : OtherDescribes(d, v)
 
 Spec == Init /\ [][Next]_vars
 
 (* ------------------------------ properties ------------------------------ *)
-Entries == [val : ValidW, ts : 0 .. MaxNow, err : {NoErr}]
+Entries == [val : ValidW \cup {Imp(w, "b") : w \in ValidWB}, ts : 0 .. MaxNow, err : {NoErr}]
            \cup [val : {"null"}, ts : 0 .. MaxNow,
                  err : [cls : KnownE \cup {"generic", PrefClass}, text : Texts \cup {PrefRest}]]
            \cup {Undef}
@@ -239,6 +257,10 @@ Ignored == [][last'.kind = "recv" /\ ~last'.handled =>
 (* exactly once: the set of callbacks invoked is exactly the registered matching ones *)
 ExactlyOnce == [][\A k \in AllKeys : last'.kind = "recv" /\ last'.handled /\ last'.key = k =>
                      last'.calls = {c \in cbs : Matches(c, k)}]_vars
+
+(* clients are isolated: what the other client of the process is told changes nothing here; and no action of this    *)
+(* client reads `other` (cache, name maps and datatypes are a function of the own description and messages only)       *)
+Isolation == [][other' # other => UNCHANGED <<desc, variant, cache, cbs, waiting, now>>]_vars
 
 (* frame: an entry changes only by a handled message for a described parameter *)
 Frame == [][\A k \in AllKeys : cache'[k] # cache[k] =>
